@@ -52,7 +52,8 @@ pub fn run() -> i32 {
         lines.extend(next.iter().cloned());
         last = next;
     }
-    let short: Vec<Vec<char>> = lines.iter().filter(|l| l.len() <= 2).cloned().collect();
+    let deep = std::env::var("VERIF_BOUNDED_DEEP").is_ok();
+    let short: Vec<Vec<char>> = lines.iter().filter(|l| l.len() <= if deep { 3 } else { 2 }).cloned().collect();
     let mut texts: Vec<(Vec<Vec<char>>, &str)> = vec![];
     for l in &lines { texts.push((vec![l.clone()], "\n")); }
     for eol in ["\n", "\r\n"] {
